@@ -106,8 +106,19 @@ def run(ck, rng, tier):
                 kind, mag, m, n = "pls", 1.0, 1, 6     # (6 objects: the first discriminant-analysis table stays empty while later ones are filled)
                 kinds_on[p] = kind
                 X = np.array([[rng.gauss(0, 1)] for _ in range(n)])
+            unit_ends = hno == 2 and step == 0
+            if unit_ends:
+                # autoscaled model whose FIRST and LAST stored scaling factors are exactly 1.0 (small-integer columns with unit
+                # sample standard deviation) while the inner ones are ordinary numbers
+                kind, mag, n, m = "pca", 1.0, 5, rng.randint(3, 4)
+                kinds_on[p] = kind
+                X = np.array([[rng.gauss(0, 1) * (3.6, 2500.0)[j % 2] for j in range(m)] for _ in range(n)])
+                X[:, 0] = np.array([1.0, 1, 2, 3, 3])[rng.sample(range(5), 5)] + float(rng.randint(-3, 3))
+                X[:, m - 1] = np.array([10.0, 12, 11, 10, 12])[rng.sample(range(5), 5)]
             if kind == "pca":
                 sc = rng.choice((0, 1)) if 1e-2 <= mag <= 1e3 else 0
+                if unit_ends:
+                    sc = 1
                 rk = int(np.linalg.matrix_rank(c02.preprocess(X, sc)))
                 npc = rng.randint(1, max(1, rk))
                 Xn = X[:2] * 0.5
